@@ -122,3 +122,5 @@ Fixpoint wl_run {N S} (iter : list N -> S -> wl_result N S) (fuel : nat) (q : li
 (* l.pop(0) / l.pop(): the element taken and the list left; None = IndexError (empty list) *)
 Definition py_pop_first {N} (l : list N) : option (N * list N) := match l with [] => None | x :: r => Some (x, r) end.
 Definition py_pop_last {N} (l : list N) : option (N * list N) := match rev l with [] => None | x :: r => Some (x, rev r) end.
+(* str(n) of an int *)
+Definition py_str_int (z : Z) : str := if (z <? 0)%Z then 45 :: print_nat (Z.to_nat (- z)) else print_nat (Z.to_nat z).
